@@ -403,3 +403,80 @@ def short(c):
     return "::".join(parts[-2:]) if len(parts) >= 2 else c
 
 
+
+
+# ------------------------------------------------------------ guard signatures ----
+
+def _var_name(fn, l):
+    for v in fn.d.get("debug", []):
+        if v["place"]["l"] == l and not v["place"]["p"]:
+            return v["name"]
+    return None
+
+
+def describe_operand(fn, defs, op, depth=0):
+    """stable, position-free description of a value: variable name, constant, or the call it comes from"""
+    if "k" in op:
+        c = op["k"]
+        if "variant" in c:
+            return c["variant"]
+        if "bits" in c:
+            return str(c["bits"])
+        if "str" in c:
+            return repr(c["str"])[:30]
+        return c.get("def") or c.get("ty", "const")
+    pl = op_place(op)
+    l = pl["l"]
+    proj = "".join("." + str(e.get("n", e.get("f", "?"))) for e in pl["p"] if isinstance(e, dict) and "f" in e)
+    for _ in range(6):
+        nm = _var_name(fn, l)
+        if nm:
+            return nm + proj
+        if 1 <= l <= fn.d["arg_count"]:
+            return "arg%d%s" % (l, proj)
+        dd = defs.whole_defs(l)
+        if len(dd) != 1:
+            return "?" + proj
+        b, i, kind, payload = dd[0]
+        if kind == "call":
+            c = callee(payload) or callee_def(payload) or "?"
+            args = ",".join(describe_operand(fn, defs, a, depth + 1) for a in payload["args"][:2]) if depth < 2 else ".."
+            return "%s(%s)%s" % (short(c), args, proj)
+        rv = payload["rv"]
+        if rv["k"] in ("use", "cast") and op_place(rv["op"]) is not None:
+            p2 = op_place(rv["op"])
+            proj = "".join("." + str(e.get("n", e.get("f", "?"))) for e in p2["p"] if isinstance(e, dict) and "f" in e) + proj
+            l = p2["l"]
+            continue
+        if rv["k"] in ("use", "cast"):
+            return describe_operand(fn, defs, rv["op"], depth + 1) + proj
+        if rv["k"] == "ref":
+            p2 = rv["place"]
+            proj = "".join("." + str(e.get("n", e.get("f", "?"))) for e in p2["p"] if isinstance(e, dict) and "f" in e) + proj
+            l = p2["l"]
+            continue
+        if rv["k"] == "bin" and depth < 2:
+            return "%s(%s,%s)%s" % (rv["op"].replace("WithOverflow", ""), describe_operand(fn, defs, rv["a"], depth + 1),
+                                    describe_operand(fn, defs, rv["b"], depth + 1), proj)
+        if rv["k"] == "discr":
+            return "discr(%s)" % describe_operand(fn, defs, {"cp": rv["place"]}, depth + 1)
+        return rv["k"] + proj
+    return "?" + proj
+
+
+def guard_signature(F, fn, bb, defs=None):
+    """sorted descriptions of the decisions every path to block bb must have taken"""
+    defs = defs or Defs(fn)
+    out = []
+    for g in gates(F, fn, [bb], defs):
+        t = fn.term(g["bb"])
+        o = g["origin"]
+        if g["kind"] == "bool" and o.get("k") == "rv" and o["rv"]["k"] == "bin":
+            rv = o["rv"]
+            out.append("%s(%s,%s)==%s" % (rv["op"], describe_operand(fn, defs, rv["a"]), describe_operand(fn, defs, rv["b"]), g["allowed"]))
+        elif g.get("callee"):
+            args = ",".join(describe_operand(fn, defs, a, 1) for a in g["call_t"]["args"][:2])
+            out.append("%s(%s) in %s" % (short(g["callee"]), args, g["allowed"]))
+        else:
+            out.append("%s in %s" % (describe_operand(fn, defs, t["op"]), g["allowed"]))
+    return sorted(set(out))
